@@ -48,6 +48,8 @@ type SOp struct {
 	// a retention pass: Storage.DeleteDataBefore(time.Unix(Retain, 0))
 	IsRetain bool  `json:"is_retain,omitempty"`
 	Retain   int64 `json:"retain,omitempty"`
+	// a graceful restart: Close, then New on the same directory
+	IsRestart bool `json:"is_restart,omitempty"`
 }
 
 type StoreIn struct {
@@ -55,6 +57,7 @@ type StoreIn struct {
 	Selectors []string `json:"selectors"`
 	ValueKeys []string `json:"value_keys,omitempty"` // GetValues is called for these and for every key GetKeys lists
 	DimNames  []string `json:"dim_names,omitempty"`  // dimensions to dump ("k:v")
+	Hide      []string `json:"hide,omitempty"`       // config HideApplications
 }
 
 type Input struct {
@@ -170,12 +173,12 @@ func runStore(in *StoreIn) (res lib.Result) {
 	storage.VerifDisablePeriodicTasks()
 	storage.OutOfSpaceThreshold = 0
 	cfg := &config.Server{StoragePath: dir, APIBindAddr: ":4040", CacheEvictThreshold: 0.02, CacheEvictVolume: 0.10,
-		MaxNodesSerialization: 2048, MaxNodesRender: 2048}
+		MaxNodesSerialization: 2048, MaxNodesRender: 2048, HideApplications: in.Hide}
 	s, err := storage.New(cfg)
 	if err != nil {
 		return lib.Result{Crash: "storage.New: " + err.Error()}
 	}
-	defer s.Close()
+	defer func() { s.Close() }()
 	defer func() {
 		if r := recover(); r != nil {
 			res = lib.Result{Crash: fmt.Sprintf("storage panicked: %v", r)}
@@ -185,7 +188,20 @@ func runStore(in *StoreIn) (res lib.Result) {
 	var opsC []string
 	nput, ndel, nret, reingest := 0, 0, 0, 0
 	retained := false
+	nrestart := 0
 	for _, o := range in.Ops {
+		if o.IsRestart {
+			if err := s.Close(); err != nil {
+				return lib.Result{Crash: "Close: " + err.Error()}
+			}
+			s, err = storage.New(cfg)
+			if err != nil {
+				return lib.Result{Crash: "storage.New after Close: " + err.Error()}
+			}
+			opsC = append(opsC, "SRestart")
+			nrestart++
+			continue
+		}
 		if o.IsRetain {
 			if err := s.DeleteDataBefore(time.Unix(o.Retain, 0)); err != nil {
 				return lib.Result{Crash: "DeleteDataBefore: " + err.Error()}
@@ -301,7 +317,7 @@ func runStore(in *StoreIn) (res lib.Result) {
 		hvalsC = append(hvalsC, lib.Pair(bs(k), strList(vs)))
 	}
 	coq := "CStore " + lib.List(opsC) + " " + lib.List(getsC) + " " + strList(keys) + " " + lib.List(valsC) + " " + lib.List(dimsC) +
-		" " + strList(hkeys) + " " + lib.List(hvalsC)
+		" " + strList(hkeys) + " " + lib.List(hvalsC) + " " + strList(in.Hide)
 	special := false
 	for _, o := range in.Ops {
 		if strings.ContainsAny(o.Put, ":/.") {
@@ -309,7 +325,7 @@ func runStore(in *StoreIn) (res lib.Result) {
 		}
 	}
 	return lib.Result{Coq: coq, NonTrivial: nput >= 3 && maxTags >= 2,
-		Feat: map[string]interface{}{"kind": "store", "puts": nput, "deletes": ndel, "retention_passes": nret,
+		Feat: map[string]interface{}{"kind": "store", "puts": nput, "deletes": ndel, "retention_passes": nret, "restarts": nrestart, "hidden_apps": len(in.Hide),
 			"old_era_puts_after_retention": reingest, "selectors": len(in.Selectors),
 			"max_selector_tags": maxTags, "special_value_chars": special}}
 }
@@ -647,6 +663,29 @@ func genStore(r *rand.Rand) Input {
 	}
 	in.ValueKeys = append(in.ValueKeys, keys...)
 	in.ValueKeys = append(in.ValueKeys, collideKeys...)
+	// hide one or two of the case's applications (config HideApplications); with three applications the
+	// middle one in sort order is hidden most of the time, so that others sort before and after it
+	if len(apps) >= 2 && lib.Chance(r, 0.5) {
+		sorted := append([]string{}, apps...)
+		sort.Strings(sorted)
+		h := sorted[r.Intn(len(sorted))]
+		if len(sorted) >= 3 && lib.Chance(r, 0.7) {
+			h = sorted[len(sorted)/2]
+		}
+		in.Hide = []string{h}
+		if len(sorted) >= 3 && lib.Chance(r, 0.3) {
+			in.Hide = append(in.Hide, sorted[0])
+		}
+		if lib.Chance(r, 0.3) {
+			in.Hide = append(in.Hide, "never-ingested")
+		}
+	}
+	if lib.Chance(r, 0.15) {
+		at := lib.Range(r, 1, len(in.Ops))
+		ops := append([]SOp{}, in.Ops[:at]...)
+		ops = append(ops, SOp{IsRestart: true})
+		in.Ops = append(ops, in.Ops[at:]...)
+	}
 	return Input{Store: in}
 }
 
@@ -813,8 +852,54 @@ func genStoreBig(r *rand.Rand) Input {
 	return Input{Store: in}
 }
 
+// one application of 120-300 series sharing a tag (its dimension and the __name__ dimension serialize to more
+// than 4 KiB), a graceful restart in the middle, then selector checks and a re-ingest
+func genStoreHuge(r *rand.Rand) Input {
+	app := lib.Pick(r, []string{"app", "big.svc"})
+	n := lib.Range(r, 120, 300)
+	region := lib.Pick(r, []string{"us-east-1-zone-a", "eu-central-1:b/c.d"})
+	var pool []series
+	for i := 0; i < n; i++ {
+		s := series{app: app, tags: map[string]string{"id": fmt.Sprintf("%03d", i), "region": region, "env": "prod"}}
+		if i%7 == 3 {
+			s.tags["env"] = "dev"
+		}
+		if i%50 == 10 {
+			s.tags["t"] = "x"
+		}
+		pool = append(pool, s)
+	}
+	pool = append(pool, series{app: "zz", tags: map[string]string{"region": region}})
+	in := &StoreIn{}
+	for _, j := range r.Perm(len(pool)) {
+		in.Ops = append(in.Ops, SOp{Put: pool[j].render(r, false), Stack: fmt.Sprintf("s%d", j), Count: 1, Slot: j % 30})
+	}
+	in.Ops = append(in.Ops, SOp{IsRestart: true})
+	j := r.Intn(n)
+	in.Ops = append(in.Ops, SOp{Put: pool[j].render(r, false), Stack: fmt.Sprintf("s%d", j), Count: 5, Slot: 2})
+	nw := series{app: app, tags: map[string]string{"id": "new", "region": region, "env": "prod"}}
+	in.Ops = append(in.Ops, SOp{Put: nw.render(r, false), Stack: "snew", Count: 9, Slot: 4})
+	if lib.Chance(r, 0.5) {
+		in.Ops = append(in.Ops, SOp{IsDel: true, Delete: pool[(j+1)%n].render(r, false)})
+	}
+	q := func(a string, kv ...string) string {
+		t := series{app: a, tags: map[string]string{}}
+		for i := 0; i+1 < len(kv); i += 2 {
+			t.tags[kv[i]] = kv[i+1]
+		}
+		return t.render(r, false)
+	}
+	in.Selectors = []string{q(app), q(app, "region", region), q(app, "env", "dev", "region", region), q(app, "t", "x", "region", region),
+		q("zz", "region", region), q(app, "id", fmt.Sprintf("%03d", j))}
+	in.ValueKeys = []string{"env", "t", "region"}
+	in.DimNames = []string{"__name__:" + app, "region:" + region, "env:dev", "t:x"}
+	return Input{Store: in}
+}
+
 func gen(r *rand.Rand, idx int, tier string) Input {
 	switch {
+	case idx%400 == 12:
+		return genStoreHuge(r)
 	case idx%20 == 0:
 		return genStoreBig(r)
 	case idx%4 == 0:
